@@ -6,7 +6,7 @@
 (*  states in which there is an ancestor to visit.                          *)
 (* ====================================================================== *)
 From Coq Require Import List NArith Bool Arith Lia.
-From AV Require Import Tree.Heap Tree.Inv Conc.RwLock Conc.Deadlock Conc.Footprint Conc.FootprintProofs.
+From AV Require Import Tree.Heap Tree.Inv Conc.RwLock Conc.Deadlock Conc.Eval Conc.EvalProofs Conc.Footprint Conc.FootprintProofs.
 Import ListNotations.
 Open Scope N_scope.
 
@@ -69,4 +69,14 @@ Section Path.
       of the model: the two-thread instance of the recorded finding C15-upward-blocking *)
 End Path.
 
+(** The consequence, on the example world of Footprint.v (AUTOSAR 0 > AR-PACKAGES 1 > AR-PACKAGE 2 > SHORT-NAME 3, x 4):
+    path() of the identifiable element 2 (footprint function) against a writer that walks down from its parent
+    (write lock of 1, then of 2: the shape of sort / remove_sub_element) reaches a stuck configuration. *)
+Theorem path_vs_downward_writer_deadlock :
+  exists c,
+    reachable (init [ lock_trace (cfg_flag 9 100) 10 (LPath 2) ex_world;
+                      [Acq true Wr (Le 1); Acq true Wr (Le 2); Rel (Le 2); Rel (Le 1)] ]) c /\ stuck c.
+Proof. apply (Conc.EvalProofs.find_stuck_sound 12). vm_compute. reflexivity. Qed.
+
 Print Assumptions footprint_path_order.
+Print Assumptions path_vs_downward_writer_deadlock.
